@@ -767,7 +767,12 @@ bool parse(const std::string& format, const std::string& input,
         continue;
       case 'd':
       case 'e':
-        data = ParseInt(data, 2, 1, 31, &tm.tm_mday);
+        if (fmt[-1] == 'e' && *data == ' ') {
+          // format() renders a one-digit %e as a blank and the digit.
+          data = ParseInt(data + 1, 1, 1, 9, &tm.tm_mday);
+        } else {
+          data = ParseInt(data, 2, 1, 31, &tm.tm_mday);
+        }
         week_num = -1;
         continue;
       case 'U':
